@@ -303,6 +303,12 @@ void sqf::fileio::impl_default::add_pbo_mapping(std::filesystem::path p)
         log(logmessage::fileio::PBOAlreadyAdded(p.string()));
         return;
     }
+    std::error_code ec;
+    if (!std::filesystem::is_regular_file(p, ec))
+    { // pbofile would create a new, empty archive at that path
+        log(logmessage::fileio::FailedToParsePBO(p.string()));
+        return;
+    }
     rvutils::pbo::pbofile pbo(p);
     if (!pbo.good())
     {
